@@ -63,6 +63,11 @@ def gen(rng, tier):
                 for k in range(1 if tier == "quick" else 8):
                     n += 1
                     yield {"family": "max_requests", "kind": "max_requests", "backend": be, "max_requests": mr, "jitter": jitter, "tag": n, "rep": k, "how": "h1"}
+            for how in ("h1_abandon", "h1_concurrent"):
+                for mr, jitter in ((2, 0), (1, 1)):
+                    n += 1
+                    yield {"family": "max_requests." + how, "kind": "max_requests", "backend": be, "max_requests": mr, "jitter": jitter, "tag": n,
+                           "rep": 0, "how": how}
             n += 1
             yield {"family": "max_requests.h2c", "kind": "max_requests", "backend": be, "max_requests": 2, "jitter": 0, "tag": n, "rep": 0, "how": "h2c"}
 
@@ -264,6 +269,14 @@ def _max_requests(case, tally):
     apps = {"lifespan": [["recv"], ["send", {"type": "lifespan.startup.complete"}], ["recv"], ["send", {"type": "lifespan.shutdown.complete"}]],
             "default": [["recv_until_end"], ["respond", 200, [(b"content-length", b"2")], b"ok"]]}
     cfg = {"max_requests": case["max_requests"], "max_requests_jitter": case["jitter"], "graceful_timeout": 0.5, "shutdown_timeout": 0.5, "keep_alive_timeout": 5.0}
+    how = case.get("how")
+    if how == "h1_abandon":
+        # the client has gone before the application answers: the request was taken on all the same
+        apps["default"] = [["recv_until_end"], ["sleep", 0.15], ["respond", 200, [(b"content-length", b"2")], b"ok"]]
+    elif how == "h1_concurrent":
+        # requests held open simultaneously: none of them completes before the limit is exceeded
+        apps["default"] = [["recv_until_end"], ["wait", "never"], ["respond", 200, [(b"content-length", b"2")], b"ok"]]
+    held = []
     h = ServeHarness(be, cfg, apps)
     served = 0
     try:
@@ -278,7 +291,15 @@ def _max_requests(case, tally):
             if s is None:
                 break
             try:
-                if case.get("how") == "h2c":
+                if how in ("h1_abandon", "h1_concurrent"):
+                    s.sendall(b"GET /t%d HTTP/1.1\r\nHost: h\r\n\r\n" % i)
+                    h.wait_event(lambda e, i=i: e[2] == "app" and e[3] == "start" and e[4]["scope"].get("path") == "/t%d" % i, 1.0)
+                    if how == "h1_concurrent":
+                        held.append(s)
+                        s = None
+                        if i + 1 >= upper:
+                            break
+                elif case.get("how") == "h2c":
                     # every request of this run reaches the server as an h2c upgrade
                     s.sendall(b"GET /t%d HTTP/1.1\r\nHost: h\r\nConnection: Upgrade, HTTP2-Settings\r\nUpgrade: h2c\r\nHTTP2-Settings: \r\n\r\n" % i)
                     d, _ = recv_all(s, timeout=0.4)
@@ -292,9 +313,12 @@ def _max_requests(case, tally):
             except OSError:
                 pass
             finally:
-                s.close()
+                if s is not None:
+                    s.close()
             time.sleep(0.03)
         returned = h.wait_done(4.0)
+        for s in held:
+            s.close()
     finally:
         h.close()
     for e in h.trace.events:
